@@ -244,16 +244,16 @@ Definition f60b_m : str := [109%N].
 Definition f60b_f1 : str := [102%N; 49%N].
 Definition f60b_f2 : str := [102%N; 50%N].
 Definition f60b_mods : list (list str * nkind) := [([f60b_m; f60b_f2], NFunc); ([f60b_m; f60b_f1], NFunc)].
-Definition f60b_scope (this : frame) : scope := mkScope [(s_std_name, NModule); (s_db_name, NModule); (f60b_m, NModule)] this None [] [].
-Definition f60b_wild (n : str) : input := mkInput n [] true.
+Definition f60b_scope (this : Scope.frame) : scope := Scope.mkScope [(s_std_name, NModule); (s_db_name, NModule); (f60b_m, NModule)] this None [] [].
+Definition f60b_wild (n : str) : Scope.input := Scope.mkInput n [] true.
 
 Theorem c06_function_body_resolved_at_call_site_refuted :
   (* where it is declared: the sibling function *)
-  body_ref f60b_cfg f60b_mods (f60b_scope (mkFrame [f60b_wild [116%N]] [])) DLetTable [f60b_m] [] ([], f60b_f2) = RBound (CRoot NFunc) /\
+  body_ref f60b_cfg f60b_mods (f60b_scope (Scope.mkFrame [f60b_wild [116%N]] [])) DLetTable [f60b_m] [] ([], f60b_f2) = RBound (CRoot NFunc) /\
   (* where it is called: `expected a function, but found this.t.f2` / `Unknown name f2` / `Ambiguous name` *)
-  (exists i, body_ref f60b_cfg f60b_mods (f60b_scope (mkFrame [f60b_wild [116%N]] [])) DFunction [f60b_m] [] ([], f60b_f2) = RInferred i) /\
-  body_ref f60b_cfg f60b_mods (f60b_scope (mkFrame [] [[97%N]])) DFunction [f60b_m] [] ([], f60b_f2) = RErr EUnknown /\
-  body_ref f60b_cfg f60b_mods (f60b_scope (mkFrame [f60b_wild [116%N]; f60b_wild [117%N]] [])) DFunction [f60b_m] [] ([], f60b_f2) = RErr EAmbiguous.
+  (exists i, body_ref f60b_cfg f60b_mods (f60b_scope (Scope.mkFrame [f60b_wild [116%N]] [])) DFunction [f60b_m] [] ([], f60b_f2) = RInferred i) /\
+  body_ref f60b_cfg f60b_mods (f60b_scope (Scope.mkFrame [] [[97%N]])) DFunction [f60b_m] [] ([], f60b_f2) = RErr EUnknown /\
+  body_ref f60b_cfg f60b_mods (f60b_scope (Scope.mkFrame [f60b_wild [116%N]; f60b_wild [117%N]] [])) DFunction [f60b_m] [] ([], f60b_f2) = RErr EAmbiguous.
 Proof. vm_compute. repeat split; try reflexivity. eexists; reflexivity. Qed.
 Print Assumptions c06_function_body_resolved_at_call_site_refuted.
 
@@ -266,5 +266,5 @@ Print Assumptions c06_function_body_place_irrelevant_partial.
 
 (* the workaround: the absolute path `m.f2` in the body means the sibling from the root too *)
 Example c06_ex_absolute_path_in_body :
-  body_ref f60b_cfg f60b_mods (f60b_scope (mkFrame [f60b_wild [116%N]] [])) DFunction [f60b_m] [] ([f60b_m], f60b_f2) = RBound (CRoot NFunc).
+  body_ref f60b_cfg f60b_mods (f60b_scope (Scope.mkFrame [f60b_wild [116%N]] [])) DFunction [f60b_m] [] ([f60b_m], f60b_f2) = RBound (CRoot NFunc).
 Proof. vm_compute. reflexivity. Qed.
